@@ -660,7 +660,7 @@ def run(ctx):
     acc.info["collision_nuclides"] = nuclides
     acc.info["collision_row_pairs"] = pairs
     acc.info["collision_samples"] = len(collide)
-    acc.sample(dict(collision_samples=[c[0] for c in collide]))
+    acc.info["collision_sample_formulas"] = [c[0] for c in collide]
     acc.info["fixed_rest_lists"] = len(LISTS)
     acc.info["target_multipliers"] = len(MULTS)
     if not acc.viol and (acc.nontrivial < 2 or not any(k.startswith("returns-time") for k in acc.outcomes)):
